@@ -11,6 +11,7 @@ EVID = os.path.join(ROOT, "evidence")
 REPLAYS = os.path.join(ROOT, "replays")
 BASELINE = os.path.join(ROOT, "baseline_obligations.json")
 KNOWN = os.path.join(ROOT, "known_findings.json")
+LIMITS = os.path.join(ROOT, "verifier_limits.json")
 
 
 def load_json(p, default):
@@ -43,6 +44,19 @@ def match_known(known, prop, oid, fail):
     return None
 
 
+def match_limit(limits, oid, fail):
+    """A verification condition the installed verifier cannot decide (documented tool gap).  The
+    function is then reported as partial: never counted as proved, its other conditions still watched."""
+    for k in limits.get("limits", []):
+        if k.get("obligation") != oid:
+            continue
+        if k.get("class") and k["class"] != fail["class"]:
+            continue
+        if norm_ws(k.get("expr")) and norm_ws(k["expr"]) in norm_ws(fail.get("expr")):
+            return k
+    return None
+
+
 def check_property(prop, tier):
     t0 = time.time()
     seed = int(os.environ.get("VERIF_SEED", "0") or 0)
@@ -52,6 +66,9 @@ def check_property(prop, tier):
     results = runner.run_units(closure)
     baseline = set(load_json(BASELINE, {}).get("discharged", []))
     known = load_json(KNOWN, {"findings": []})
+    limits = load_json(LIMITS, {"limits": []})
+    base_partial = set(load_json(BASELINE, {}).get("partial", []))
+    partial = {}
 
     violations = []  # (oid, fail, unitresult)
     known_hits = []
@@ -109,9 +126,15 @@ def check_property(prop, tier):
                 obligations[oid] = "ok" if ob["status"] == "ok" else "undecided"
                 per_ob.append({"id": oid, "kind": "lemma", "backend": "verus/z3", "ms": ob.get("ms"), "rlimit": ob.get("rlimit"), "status": obligations[oid]})
                 continue
-            rel_fail = [f for f in ob["failures"] if f["class"] in classes]
-            res_fail = [f for f in ob["failures"] if f["class"] == "resource"]
+            lim = [(f, match_limit(limits, oid, f)) for f in ob["failures"]]
+            lim_hits = [k for f, k in lim if k is not None]
+            fails = [f for f, k in lim if k is None]
+            rel_fail = [f for f in fails if f["class"] in classes]
+            res_fail = [f for f in fails if f["class"] == "resource"]
             status = "ok"
+            if lim_hits:
+                status = "partial"
+                partial[oid] = sorted({k.get("id", "?") for k in lim_hits})
             if ob["status"] == "unknown":
                 status = "undecided"
             if res_fail:
@@ -124,13 +147,16 @@ def check_property(prop, tier):
                     if status == "ok":
                         status = "known-finding"
                     continue
-                if oid in baseline:
+                if oid in baseline or oid in base_partial:
                     violations.append((oid, f, r))
                     status = "violated"
                 else:
                     undecided.append("%s: %s fails (%s: %s) but was never discharged on the baseline tree" % (u, oid, f["class"], f["message"]))
-                    if status == "ok":
+                    if status in ("ok", "partial"):
                         status = "undecided"
+            if status == "ok" and ob["status"] not in ("ok",) and not lim_hits and not rel_fail and not res_fail and ob["failures"]:
+                # fails only in classes another property owns (e.g. functional for C15): still not "discharged" here
+                status = "fails-in-other-class"
             obligations[oid] = status
             per_ob.append(
                 {
@@ -235,8 +261,10 @@ def check_property(prop, tier):
         seen_k.add(k.get("id"))
         print("KNOWN-FINDING: property=%s %s" % (prop, k.get("what", k.get("id"))))
 
-    n_ob = len(obligations)
-    n_ok = sum(1 for v in obligations.values() if v in ("ok",))
+    # partial functions are never counted, neither as obligations nor as discharged
+    n_partial = sum(1 for v in obligations.values() if v == "partial")
+    n_ob = len(obligations) - n_partial
+    n_ok = sum(1 for v in obligations.values() if v in ("ok", "fails-in-other-class"))
     n_bounded = sum(1 for v in obligations.values() if v == "ok-bounded")
     samples = []
     for u in units:
@@ -290,6 +318,8 @@ def check_property(prop, tier):
             "obligations": n_ob,
             "discharged": n_ok,
             "bounded_not_counted_as_proved": n_bounded,
+            "partial_not_counted_as_proved": [{"obligation": k, "verifier_limits": v} for k, v in sorted(partial.items())],
+            "verifier_limits": [l for l in limits.get("limits", []) if any(l.get("id") in v for v in partial.values())],
             "checker_cmd": " ; ".join(sorted(set(cmds)))[:2000] + " (run in /verif/build/gen on files re-extracted from /repo's working tree)",
             "trusted_base": sorted(set(trusted)) + meta.get("trusted_base_notes", []),
             "samples": samples,
@@ -351,9 +381,16 @@ def cmd_baseline():
     res = runner.run_units(units)
     ok = []
     bad = []
+    part = []
+    limits = load_json(LIMITS, {"limits": []})
     for u in units:
         for oid, ob in res[u].obligations.items():
-            (ok if ob["status"] == "ok" else bad).append(oid)
+            if ob["status"] == "ok":
+                ok.append(oid)
+            elif ob["failures"] and all(match_limit(limits, oid, f) is not None for f in ob["failures"]):
+                part.append(oid)
+            else:
+                bad.append(oid)
         for x in res[u].infra:
             bad.append(u + " INFRA " + x)
     try:
@@ -365,8 +402,8 @@ def cmd_baseline():
     except ImportError:
         pass
     with open(BASELINE, "w") as f:
-        json.dump({"note": "obligations discharged on the unchanged (repaired) tree; written only by `./check baseline`", "discharged": sorted(ok)}, f, indent=1)
-    print("baseline: %d discharged, %d not" % (len(ok), len(bad)))
+        json.dump({"note": "obligations discharged on the unchanged (repaired) tree; written only by `./check baseline`", "discharged": sorted(ok), "partial": sorted(part)}, f, indent=1)
+    print("baseline: %d discharged, %d partial (verifier limits), %d not" % (len(ok), len(part), len(bad)))
     for b in bad:
         print("  NOT:", b)
     return 0 if not bad else 2
